@@ -179,6 +179,8 @@ func runC01(r *Run) {
 	r.Expect("C01.7", 1, "catch-up response carrying a committed header")
 
 	thresholdOrientation(r, "C01.8")
+	// the majority in C01.2 is taken over AvailablePower: it must be the total of the set assigned to the view
+	availablePowerCoherence(r, "C01.9")
 	r.Expect("C01.2", 4, "guards on the shift call")
 	r.Expect("C01.3", 4, "committed header save")
 	r.Expect("C01.8", 15, "threshold comparisons")
